@@ -316,4 +316,25 @@ def emit(tokens_of, find_fn):
         b = _body(find_fn(tokens_of("src/enc/threading.rs"), "CompressMultiSlice"))
         flag("multiSliceFreesInputCopy", "`CompressMultiSlice` frees its copy of the input", _count_seq(b, ["free_cell"]) >= 1)
     guard("flags", flags)
+
+    # allocation skeletons of the call trees inside one encode_data call: a file of its own
+    # (BV/Gen/LedgerSkel.lean, imports the skeleton model), never an error: what cannot be extracted is listed in
+    # the file (`skelUnavailable`) and in LedgerSkel.notes.txt and stays a run-time check
+    try:
+        import os
+        import sys
+        import gen_skel
+        import gen_source as _gs
+        od = [a for a in sys.argv[1:] if not a.startswith("--")]
+        od = od[0] if od else os.path.join(os.path.dirname(os.path.dirname(os.path.abspath(__file__))), "lean", "BV", "Gen")
+        repo = getattr(_gs, "REPO", None) or getattr(sys.modules.get("__main__"), "REPO", "/repo")
+        notes = gen_skel.generate(tokens_of, repo, od)
+        with open(os.path.join(od, "LedgerSkel.notes.txt"), "w") as fh:
+            fh.write("\n".join(notes) + ("\n" if notes else ""))
+    except Exception as e:   # never take the generator down
+        try:
+            with open(os.path.join(od, "LedgerSkel.notes.txt"), "w") as fh:
+                fh.write("skeleton extraction crashed: %r\n" % (e,))
+        except Exception:
+            pass
     return lines, errors
